@@ -206,7 +206,7 @@ REGISTRY = {
     },
     "C01": {
         "corr": "C01",
-        "classes": {1: "F9", 2: "F11"},
+        "classes": {1: "F9", 2: "F11", 3: "F12"},
         "harness_timeout": 3000,
         "trusted": [
             "modelled: the pipeline algebra and its sequential meaning (Model/Pipe.v, same closed vocabulary of user functions in Rust and Gallina), the distributed meaning over partitions and exchanges (Model/PipeDist.v)",
@@ -220,7 +220,7 @@ REGISTRY = {
     },
     "C10": {
         "corr": "C10",
-        "classes": {1: "F9", 2: "F11"},
+        "classes": {1: "F9", 2: "F11", 3: "F12"},
         "harness_timeout": 3000,
         "trusted": [
             "modelled: the round-by-round semantics of replay / iterate / nested loops over distributed bodies (Model/PipeDist.v dloop, diter) against the sequential fixed point (Model/Pipe.v); leader and state-publication protocol (Model/Loop.v) when present",
@@ -233,7 +233,7 @@ REGISTRY = {
     },
     "C18": {
         "corr": "C18",
-        "classes": {1: "F9", 2: "F11"},
+        "classes": {1: "F9", 2: "F11", 3: "F12"},
         "harness_timeout": 3000,
         "trusted": [
             "modelled: End + Batcher flush points (FlushAndRestart, FlushBatch, Terminate), the receive part of Start::next with adaptive batching (already_timed_out), ChannelSource::next (MAX_RETRY polls, one FlushBatch, blocking recv), linear pipelines of k block boundaries",
@@ -256,5 +256,20 @@ REGISTRY = {
         "level_text": "Proof: in every maximal execution after a user panic in replica r, every replica is Done or Crashed (nobody blocks forever), everything downstream of r is Crashed, no downstream sink ever published, and every host running r or anything downstream fails; executions are finite. Tied to the code by running random acyclic jobs on the real engine with a user function that panics on a data-dependent element, on local and multi-host deployments, observing per host whether execute_blocking failed and whether the sink handle holds a result. Partial: unwinding/join/socket teardown are Rust's and the OS's.",
         "level_note": "Trusted: Coq kernel, abstract crash model (tied by whole-job observations only), harness. No axioms.",
         "explanation": "C20_fail_stop proved on the crash model; injected panics on the engine.",
+    },
+    "C04": {
+        "corr": "C04",
+        "classes": {1: "F9", 2: "F11", 3: "F12"},
+        "harness_timeout": 3000,
+        "trusted": [
+            "modelled: a job as a network of replicas over bounded FIFO channels (Model/Net.v: blocking send on a full channel, blocking receive on empty wanted channels); the marker-level replica r_sem (counts FlushAndRestart / Terminate per side, broadcasts them in End's order, forwards data batches, reads only the side that has not ended the round); the detailed marker accounting of Start (Model/Start.v) and of the two-input Start's select (Model/BinaryStart.v)",
+            "the marker-level replica is an abstraction of Start + operator chain + End that is read off the code and justified by the operator-level theorems (C04_start_*, C04_binary_*, C02/C05); it is tied to the engine end to end by whole-job runs only",
+            "covered by the unconditional theorems: every acyclic job on ONE host (channels per (consumer replica, previous block), any fan-in/fan-out, self-joins, any capacity >= 1, any data). NOT covered: loops (feedback edges; Model/Loop.v and C10, whole-job runs) and multi-host runs, where remote connections are multiplexed per (block pair, host pair): the model then has a reachable deadlock (C04_mux_deadlock_in_model; >= 2 hosts, > 16 upstream replicas, a full connection behind a blocked Terminate) that we did not reproduce on the engine; see DESIGN.md F13",
+            "trusted: thread scheduling fairness, flume channels, TCP, JoinHandle::join",
+        ],
+        "assumptions": ["finite sources; user functions terminate; static well-formedness dag_ok of the execution graph (decidable; it excludes exactly the start-up panic of known finding F11: a consumer replica without producer)"],
+        "level_text": "Proof: for every acyclic network of marker-level replicas without demultiplexers (every non-iterative one-host job), every capacity, data volume and schedule, no reachable state is a deadlock, every execution is finite and ends with all replicas exited (C04_dag_no_deadlock, C04_dag_job_terminates: global counting invariant over channels + the generic level argument C04_no_deadlock); block inputs are proved to keep reading until every producer's Terminate arrived, to emit Terminate exactly once and last, and to block only on empty sides that still owe a marker. Completeness of each sink is C01's theorem. Tied to the code by whole jobs on the real engine (loops, side inputs, diamonds, empty inputs, inputs larger than the total channel capacity, all batch modes, local and multi-host) under a watchdog, results compared with the sequential meaning. Partial: loops and multiplexed multi-host connections are outside the network theorem.",
+        "level_note": "Trusted: Coq kernel/vm_compute, network model (tied to the engine by whole-job runs only), harness watchdogs. Known findings F9 (iterate hang), F11, F12. No axioms.",
+        "explanation": "C04_* proved on the network model (all acyclic one-host jobs); whole jobs run on the engine under a watchdog.",
     },
 }
